@@ -848,7 +848,7 @@ HYPOTHESES = ['field_theory of the base field (point theorems)', 'sqrt oracle sp
               'cmp is a total order compatible with equality (cmp_eq / cmp_antisym)', 'te: a <> d']
 
 # T-field translator, table 2: see props/C13/prop.py (coordinate recovery / to_flags / from_x_coordinate = C09 models)
-STRICT_PROP_FILES = ['Gen2']
+STRICT_PROP_FILES = ['Gen2', 'Gen3']
 
 
 def _gen2_regen(ctx):
@@ -860,3 +860,14 @@ def _gen2_regen(ctx):
 
 def pre(ctx):
     _gen2_regen(ctx)
+    _gen3_regen(ctx)
+
+# T-field translator, table 3 (lib/xlate_field.py --table3): per-curve hook overrides (Fp2/Fp3/Fp6 non-residue hooks,
+# mul_by_a), tower helpers (norm, cyclotomic inverse, mul_by_fp*, Frobenius coefficient hooks), SubAssign / cofactor code,
+# point serialisation; Props/Gen3.v is a strict obligation
+def _gen3_regen(ctx):
+    import importlib.util, os
+    sp = importlib.util.spec_from_file_location('gen_pre3', os.path.join(ctx['ROOT'], 'props', 'Gen', 'pre3.py'))
+    m = importlib.util.module_from_spec(sp); sp.loader.exec_module(m)
+    m.regen(ctx)
+
